@@ -152,9 +152,10 @@ def np_unique(eng, args, kwargs):
     wit, pos = z3.Function("wit_" + tag, I, I), z3.Function("pos_" + tag, I, I)
     n, m = a.nz(), out.nz()
     A, O = (lambda t: a.get(t).z), (lambda t: out.get(t).z)
-    eng.assume(z3.And(m >= 0, m <= n, (m == 0) == (n == 0)))
+    eng.assume(z3.And(m >= 0, m <= n))
     if ub is not None:
         set_bound(eng, out, ub)
+        eng.assume((m == 0) == (n == 0))  # follows from wit / pos; stated for the written-out form
     eng.assume(FA(m, ub, lambda k: z3.And(wit(k) >= 0, wit(k) < n, O(k) == A(wit(k)))))
     if ub is None:
         k, k2 = z3.Ints(f"k_{tag} k2_{tag}")
